@@ -313,6 +313,27 @@ def gen_systematic():
                 ops.append(("settle",))
             ops.append(("adv", 8 * MS - now))
             cases.append((n, ops))
+    # un-timed multi_call over callees that accept the request and then drop the port / stop /
+    # are killed / panic while holding it: those slots are SenderError (never Timeout)
+    for n in (2, 3):
+        for bad in range(n):
+            for how in ("drop", "kill", "stop", "panic", "err", "store-kill"):
+                for order in ("bad-first", "bad-last"):
+                    ops = [("multi", list(range(n)), None), ("settle",)]
+                    good = [("act", c, ("reply", 80 + c), []) for c in range(n) if c != bad]
+                    if how == "drop":
+                        b = [("act", bad, ("drop",), [])]
+                    elif how == "kill":
+                        b = [("kill", bad)]
+                    elif how == "stop":
+                        b = [("stop", bad), ("act", bad, ("drop",), [])]
+                    elif how == "store-kill":
+                        b = [("act", bad, ("store",), []), ("settle",), ("kill", bad)]
+                    else:
+                        b = [("act", bad, (how,), [])]
+                    ops += (b + [("settle",)] + good) if order == "bad-first" else (good + [("settle",)] + b)
+                    ops.append(("settle",))
+                    cases.append((n, ops))
     # forward: success, dead sink, sender error, timeout
     cases.append((2, [("fwd", 0, 1, None), ("settle",), ("act", 0, ("reply", 60), []), ("settle",)]))
     cases.append((2, [("fwd", 0, 1, None), ("settle",), ("kill", 1), ("settle",), ("act", 0, ("reply", 60), []), ("settle",)]))
